@@ -752,7 +752,18 @@ def runtime_cfg(scn, facts, lookups="all", shared_names=False):
             # the factory's registry calls are traced in two scenarios out of three (the third runs without the wrapper)
             "trace": scn.get("trace", scn["id"] % 3 != 0),
             # one scenario in five is started twice on the same instances (the second start must look like the first)
-            "twice": scn.get("twice", scn["id"] % 5 == 4)}
+            "twice": scn.get("twice", scn["id"] % 5 == 4),
+            # one scenario in four comes after ANOTHER App of the same worker process, over instances of its own of the same
+            # types, in which an application-defined post-processor rewrote the tag arguments (qualifier, required, values in
+            # place) of every injection point: a start is independent of earlier starts, the scenario must look as always
+            "foreign": foreign_first(scn, True)}
+
+
+def foreign_first(scn, keep=False):
+    f = bool(scn.get("foreign", scn["id"] % 4 == 1))
+    if keep:
+        scn["foreign"] = f       # part of the scenario from now on: replays and shrunk variants run the same way
+    return f
 
 
 # ------------------------------------------------------------------------------------------------
@@ -1121,7 +1132,10 @@ def scenario_stats(scns, by_id):
             for p in t["fields"]:
                 k = p["sel"][0] + ("-slice" if p["slice"] else "") + ":" + p["target"][0]
                 kinds[k] = kinds.get(k, 0) + 1
-    return {"outcomes": oc, "components_per_scenario": sizes, "point_kinds": kinds}
+    return {"outcomes": oc, "components_per_scenario": sizes, "point_kinds": kinds,
+            "started_twice_on_the_same_instances": sum(1 for s in scns if s["id"] in by_id and s.get("twice", s["id"] % 5 == 4)),
+            "preceded_by_another_app_whose_processor_rewrote_tag_arguments":
+                sum(1 for s in scns if s["id"] in by_id and foreign_first(s))}
 
 
 def shape_hash(s):
